@@ -46,8 +46,11 @@ func (s *Server) DiscoveryRequest(req *pool.Message, address string, receiverFun
 	if len(token) == 0 {
 		return errors.New("invalid token")
 	}
-	c := s.conn()
+	c := s.conn(req.Context())
 	if c == nil {
+		if err := req.Context().Err(); err != nil {
+			return err
+		}
 		return errors.New("server doesn't serve connection")
 	}
 	addr, err := net.ResolveUDPAddr(c.Network(), address)
